@@ -3838,3 +3838,79 @@ func rz4SortSelfContained(w *World) {
 		w.violation("sort-self-contained", sortFn.Decl.Pos(), "Sort() fills the Sorter's scratch state when the sequence is built ("+strings.Join(bad, "; ")+") instead of when it is traversed: the first traversal consumes it, so ranging over the same sequence again (or after an early break) yields nothing, and two sequences built from one Sorter before either is consumed mix their roots")
 	}
 }
+
+// RN8 (C22): a lazily made copy is really made. The strip code copies a list only when something
+// in it changes and uses "the copy is still nil" as the marker for "nothing changed so far". The
+// statement that creates the copy under `copy == nil` must produce a non-nil slice whatever the
+// lengths are (`make`, a composite literal): `copy = append(copy, list[:i]...)` leaves it nil when
+// the first change is at index 0, so the marker still says "nothing changed" — the next change
+// restarts the copy and brings the dropped element back, or the input is returned as it was (a
+// location that points into a stripped option survives).
+func rn8LazyCopyIsMade(w *World) {
+	w.rule("RN8")
+	p := w.pkg("options")
+	if p == nil {
+		return
+	}
+	info := p.TypesInfo
+	n := 0
+	for _, b := range allFuncBodies(p) {
+		if b.Lit != nil || !strings.HasSuffix(w.Fset.Position(b.Decl.Pos()).Filename, "source_retention_options.go") {
+			continue
+		}
+		ast.Inspect(b.Body, func(x ast.Node) bool {
+			ifs, ok := x.(*ast.IfStmt)
+			if !ok {
+				return true
+			}
+			// conditions that establish V == nil on the then-branch (V == nil), or on the else
+			// branch (V != nil { … } else [if …] { init })
+			var vName string
+			var initBlocks []*ast.BlockStmt
+			if be, ok := ast.Unparen(ifs.Cond).(*ast.BinaryExpr); ok && isNilIdent(info, be.Y) {
+				if id, ok := ast.Unparen(be.X).(*ast.Ident); ok {
+					if _, isSlice := info.TypeOf(id).Underlying().(*types.Slice); isSlice {
+						vName = id.Name
+						if be.Op == token.EQL {
+							initBlocks = append(initBlocks, ifs.Body)
+						} else if be.Op == token.NEQ && ifs.Else != nil {
+							switch el := ifs.Else.(type) {
+							case *ast.BlockStmt:
+								initBlocks = append(initBlocks, el)
+							case *ast.IfStmt:
+								initBlocks = append(initBlocks, el.Body)
+							}
+						}
+					}
+				}
+			}
+			for _, blk := range initBlocks {
+				for _, st := range blk.List {
+					as, ok := st.(*ast.AssignStmt)
+					if !ok || len(as.Lhs) != 1 || len(as.Rhs) != 1 || render(as.Lhs[0]) != vName {
+						continue
+					}
+					n++
+					key := "lazy-copy-made|" + b.Label + "|" + vName
+					rhs := ast.Unparen(as.Rhs[0])
+					good := false
+					switch r := rhs.(type) {
+					case *ast.CallExpr:
+						if isBuiltinCall(info, r, "make") {
+							good = true
+						}
+					case *ast.CompositeLit:
+						good = true
+					}
+					if good {
+						w.ok(key, as.Pos(), "the copy is created with make / a literal: it is non-nil from the first change on")
+					} else {
+						w.violation(key, as.Pos(), vName+" marks \"nothing changed yet\" by being nil, but the statement that creates the copy is "+types.ExprString(rhs)+", which is still nil when nothing precedes the first change (index 0): the marker keeps saying \"unchanged\", so the first removed element comes back with the next change or the input is returned as it was")
+					}
+				}
+			}
+			return true
+		})
+	}
+	w.floor("lazy copies in the strip code", n, 1)
+}
